@@ -24,7 +24,7 @@ static Plan gen_c14(uint64_t seed, int64_t index, bool thorough)
     Rng rng(hash_seed(seed, "C14", index));
     // xnode (throwing move) only takes part with small inputs: std::vector itself copies such elements when it grows
     // (pnode: trivially destructible, so only its COPIES are visible to the ledger -- the fixed-capacity value stack)
-    std::vector<std::string> pk = keys_for({ "G1", "G2", "G3", "G4", "G6", "G7", "G10", "G11", "G13", "G14", "G14", "G16", "G17", "G18", "G19", "G20", "G21", "G22", "G23", "G24", "G25", "T1" }, true, true);
+    std::vector<std::string> pk = keys_for({ "G1", "G2", "G3", "G4", "G6", "G7", "G10", "G11", "G13", "G14", "G14", "G16", "G17", "G18", "G19", "G20", "G21", "G22", "G23", "G24", "G25", "G27", "T1" }, true, true);
     std::string key = rng.pick(pk);
     const ref::Model* m = model_for(grammar_of(key));
     OpShape sh;
@@ -166,7 +166,7 @@ static std::vector<Violation> case_c14(const Plan& p, CaseCtx& cx)
 static Plan gen_c16(uint64_t seed, int64_t index, bool thorough)
 {
     Rng rng(hash_seed(seed, "C16", index));
-    std::vector<std::string> pk = keys_for({ "G1", "G2", "G3", "G4", "G5", "G6", "G7", "G8", "G9", "G10", "G11", "G12", "G13", "G14", "G15", "G16", "G17", "G18", "G19", "G20", "G21", "G22", "G23", "G24", "G25", "T1" });
+    std::vector<std::string> pk = keys_for({ "G1", "G2", "G3", "G4", "G5", "G6", "G7", "G8", "G9", "G10", "G11", "G12", "G13", "G14", "G15", "G16", "G17", "G18", "G19", "G20", "G21", "G22", "G23", "G24", "G25", "G27", "T1" });
     std::string key = rng.pick(pk);
     { std::vector<std::string> xk = random_grammar_keys(); if (!xk.empty() && rng.chance(1, 2)) key = rng.pick(xk); }   // thorough tier: seeded random grammars
     const ref::Model* m = model_for(grammar_of(key));
@@ -177,8 +177,19 @@ static Plan gen_c16(uint64_t seed, int64_t index, bool thorough)
     sh.buffers = { BUF_SIM, BUF_STRING, BUF_VIEW, BUF_CSTRING };
     sh.streams = { STR_SIM };
     PlanOp op = make_sentence_op(rng, key, sh);
-    // lexemes never contain '\n' here: a Shift line would not be parseable unambiguously
-    for (PTok& t : op.toks) for (char& c : t.lex) if (c == '\n') c = '?';
+    // lexemes normally contain no '\n' here (a Shift line would not be parseable unambiguously). One case in six keeps or
+    // makes multi-line lexemes: the trace is then left unjudged, the comparison of OUTCOMES across verbosity and stream
+    // kinds (the values the functors saw included) stays - a trace routine that edits the lexeme it prints is seen (S103)
+    if (rng.chance(1, 6))
+    {
+        if (m->g.custom_lexer && !op.toks.empty())
+        {
+            PTok& t = op.toks[size_t(rng.below(op.toks.size()))];
+            if (t.lex.size() >= 2) t.lex[size_t(rng.range(1, int(t.lex.size()) - 1))] = '\n'; else t.lex += "\nq";
+        }
+    }
+    else
+        for (PTok& t : op.toks) for (char& c : t.lex) if (c == '\n') c = '?';
     std::string mode;
     uint64_t k = rng.below(100);
     if (k < 35) mode = "valid";
